@@ -440,10 +440,15 @@ def load_findings(prop):
     return [x for x in data.get("findings", []) if x.get("property") == prop and x.get("status") == "known"]
 
 
+CURRENT = None   # the Check being run (bin/vcheck: a tool error after an established violation still exits 1)
+
+
 class Check:
     """Collects coverage and violations of one check run and writes evidence / prints verdict."""
 
     def __init__(self, prop, tier, level="model_checking"):
+        global CURRENT
+        CURRENT = self
         self.prop = prop
         self.tier = tier
         self.level = level
